@@ -147,33 +147,33 @@ self.rep = ite(merged, lam(lambda i: winner if self.rep[i] == loser else self.re
 fn(UF + '.roots', properties=['C20'], returns='set[int]',
    requires=['wf(self)'],
    modifies=['self._par'],
-   locals={'acc0': 'list[int]'},
+   locals={'acc_c0': 'list[int]'},
    ensures=['wf(self)', 'all(self.rep[i] == old(self.rep[i]) for i in range(self.n_elts))',
             # the result is exactly the set of representatives: one per class of the partition
             'all(self.rep[i] in result for i in range(self.n_elts))',
             'all(0 <= r and r < self.n_elts and self.rep[r] == r for r in result)'],
-   loops={0: loop(invariant=['wf(self)', 'all(self.rep[i] == old(self.rep[i]) for i in range(self.n_elts))',
+   loops={'c0': loop(invariant=['wf(self)', 'all(self.rep[i] == old(self.rep[i]) for i in range(self.n_elts))',
                              'self.n_elts == old(self.n_elts)',
                              'all(self._elts[i] == old(self._elts[i]) for i in range(self.n_elts))',
-                             'len(acc0) == it0',
-                             'all(acc0[j] == self.rep[j] for j in range(it0))'])})
+                             'len(acc_c0) == it_c0',
+                             'all(acc_c0[j] == self.rep[j] for j in range(it_c0))'])})
 
 fn(UF + '.component', properties=['C20'], params={'x': 'Elt'}, returns='set[Elt]',
    requires=['wf(self)'],
    raises={'ValueError': 'x not in self._indx'},
    modifies=['self._par'],
-   locals={'acc0': 'list[Elt]', 'root': 'int', 'pos': 'map[int,int]'},
+   locals={'acc_c0': 'list[Elt]', 'root': 'int', 'pos': 'map[int,int]'},
    ensures=['wf(self)', 'all(self.rep[i] == old(self.rep[i]) for i in range(self.n_elts))',
             # exactly the class of x in the abstract partition
             'all((e in result) == (e in self._indx and conn(self, e, x)) for e in Elt)'],
-   loops={0: loop(invariant=['wf(self)', 'all(self.rep[i] == old(self.rep[i]) for i in range(self.n_elts))',
+   loops={'c0': loop(invariant=['wf(self)', 'all(self.rep[i] == old(self.rep[i]) for i in range(self.n_elts))',
                              'self.n_elts == old(self.n_elts)', 'x in self._indx',
                              'all(self._elts[i] == old(self._elts[i]) for i in range(self.n_elts))',
                              'all((e in self._indx) == old(e in self._indx) for e in Elt)',
                              'all(implies(e in self._indx, self._indx[e] == old(self._indx[e])) for e in Elt)',
                              'root == self.rep[self._indx[x]]',
-                             'all(acc0[k] in self._indx and self._indx[acc0[k]] < it0 and self.rep[self._indx[acc0[k]]] == root for k in range(len(acc0)))',
+                             'all(acc_c0[k] in self._indx and self._indx[acc_c0[k]] < it_c0 and self.rep[self._indx[acc_c0[k]]] == root for k in range(len(acc_c0)))',
                              # ghost witness pos[j]: where element j sits in the accumulator
-                             'all(implies(self.rep[j] == root, 0 <= pos[j] and pos[j] < len(acc0) and acc0[pos[j]] == self._elts[j]) for j in range(it0))'],
-                  ghost_end=['pos = mapset(pos, it0 - 1, len(acc0) - 1)'])},
+                             'all(implies(self.rep[j] == root, 0 <= pos[j] and pos[j] < len(acc_c0) and acc_c0[pos[j]] == self._elts[j]) for j in range(it_c0))'],
+                  ghost_end=['pos = mapset(pos, it_c0 - 1, len(acc_c0) - 1)'])},
    ghost_entry=['pos = lam(lambda j: 0)'])
